@@ -15,6 +15,15 @@ TU_EXTRA = r'''
 namespace vf {
 struct E0 {};                      // an opaque user exception type
 template< int I > struct RM : R< I > { static constexpr const char* error_message = "custom"; };   // rule with a custom error message
+// must_if<> error tables: message present / absent, raise_on_failure absent / contradicting the message default
+struct EM   { template< typename > static constexpr const char* message = "m"; };
+struct EN   { template< typename > static constexpr const char* message = nullptr; };
+struct EMF  { template< typename > static constexpr const char* message = "m";     template< typename > static constexpr bool raise_on_failure = false; };
+struct ENT  { template< typename > static constexpr const char* message = nullptr; template< typename > static constexpr bool raise_on_failure = true; };
+template< typename Rule > using CEM  = must_if< EM >::control< Rule >;
+template< typename Rule > using CEN  = must_if< EN, normal, false >::control< Rule >;
+template< typename Rule > using CEMF = must_if< EMF >::control< Rule >;
+template< typename Rule > using CENT = must_if< ENT, normal, false >::control< Rule >;
 }
 '''
 AM = [(a, m) for a in (0, 1) for m in (0, 1)]
@@ -32,6 +41,11 @@ OPS = {
 }
 
 
+# must_if<Errors>::control as the control of the real match(): a local failure of the rule becomes a global one exactly when
+# Errors::raise_on_failure<Rule> says so, or, without that member, when Errors::message<Rule> is not null (doc/Errors-and-Exceptions.md)
+MI_OPS = {'mi_msg': ('CEM', True, 'must_if<vf::EM'), 'mi_nomsg': ('CEN', False, None), 'mi_msg_norof': ('CEMF', False, None), 'mi_nomsg_rof': ('CENT', True, r'normal<vf::R<0> >::raise<')}
+
+
 def rname(op, a, m, tr):
     return '%s_A%dM%d_%s' % (op, a, m, 'e' if tr == 'eager' else 'l')
 
@@ -44,6 +58,10 @@ def tu():
     s = TU_PROLOGUE + TU_EXTRA
     for op, a, m, tr in all_roots():
         s += tu_root(rname(op, a, m, tr), INPUT_TYPES[(tr, 'lf_crlf')], '%s::match< A%d, M%d, nothing, normal >( in )' % (OPS[op], a, m))
+    for op, (ctl, _, _) in MI_OPS.items():
+        for a, m in AM:
+            for tr in ('eager', 'lazy'):
+                s += tu_root(rname(op, a, m, tr), INPUT_TYPES[(tr, 'lf_crlf')], 'tao::pegtl::match< R<0>, A%d, M%d, nothing, %s >( in )' % (a, m, ctl))
     return s
 
 
@@ -166,4 +184,29 @@ def jobs(tier):
                 desc='%s apply_mode=%s rewind_mode=%s on memory_input<%s>, Control=normal (real raise), sub-rules = oracle stubs' % (
                     OPS[op], 'action' if a else 'nothing', 'optional' if m else 'required', tr))
         out.append(j)
+    # ---- must_if
+    P = ('C05',)
+    for op, (ctl, raises, site) in MI_OPS.items():
+        for a, m in AM:
+            for tr in ('eager', 'lazy'):
+                if tr == 'lazy' and tier != 'thorough' and not (a == 1 and m == 0):
+                    continue
+                con = Contract(comb_requires(), Clause('assigns', 'IT_FIELDS(in), g_turn, g_pos, g_done, g_iter, g_last, g_called, g_ok, g_len, g_ncalls, g_ae, g_re, g_lp, vf_exc, vf_exc_counter, g_exc_obj, g_exc_type'))
+                con.add(E('VALID_POST(in)', 'RC-VALID', ('C02', 'C03')))
+                con.add(E('(STUB_RAISED && vf_exc.pending && vf_exc.obj == g_exc_obj) ==> vf_exc.type == g_exc_type', 'EXC-UNCHANGED', P))
+                con.add(E('g_called[0]', 'MUSTIF-CALLS-RULE', P))
+                con.add(E('(g_ok[0] && !STUB_RAISED) ==> (!vf_exc.pending && RET == 1 && CONSUMED(in) == g_len[0])', 'MUSTIF-PASSES-SUCCESS', P))
+                if raises:
+                    own = ('(vf_exc.pending && vf_exc.type == %s && vf_exc.site == $SITE{%s} && vf_exc.obj != g_exc_obj && EXC_POS_IS_CURSOR(in) && OFF(CUR(in)) >= g_e_off)' % (PE, site))
+                    con.add(E('(!g_ok[0] && !STUB_RAISED) ==> %s' % own, 'MUSTIF-LOCAL-FAILURE-BECOMES-GLOBAL-WHEN-CONFIGURED', P))
+                else:
+                    con.add(E('(!g_ok[0] && !STUB_RAISED) ==> (!vf_exc.pending && RET == 0)', 'MUSTIF-LOCAL-FAILURE-STAYS-LOCAL-WHEN-CONFIGURED', P))
+                con.add(E('vf_canary', 'canary_exit'))
+                spec = {0: dict(A=str(a), next_ok='T_NONE', next_fail='T_NONE')}
+                j = Job(rname(op, a, m, tr), NAME, rname(op, a, m, tr), con, ('C05', 'C02'),
+                        stubs=[(r'^bool vf::RM?<\d+>::match<', rule_stub(spec))], prelude=exc_prelude(tr),
+                        harness=comb_harness('vf_' + INPUT_TYPES[(tr, 'lf_crlf')], tr, 'w_ret = $ENTRY(&in)').replace('vf_exc.pending = 0;', 'vf_exc.pending = 0; vf_exc.obj = 0; __CPROVER_assume(vf_exc_counter < 1000);' + (' g_begin_byte = in._b0.m_begin.byte; __CPROVER_assume(in._b0.m_begin.byte < ((size_t)1<<62) && in._b0.m_begin.line >= 1 && in._b0.m_begin.line < ((size_t)1<<62) && in._b0.m_begin.column >= 1 && in._b0.m_begin.column < ((size_t)1<<62));' if tr == 'lazy' else '')),
+                        expect_fail_canary=('canary_exit',),
+                        desc='match< R<0>, %s, %s, nothing, must_if<...>::control > (%s) on memory_input<%s>' % ('action' if a else 'nothing', 'optional' if m else 'required', ctl, tr))
+                out.append(j)
     return out
